@@ -176,9 +176,11 @@ def getHeader (h : Header) : Res Header :=
   else if h.hashMerkleRoot.length ≠ 32 then .error assertionError
   else .ok h
 
-/-- `CheckBlock(block, fCheckPoW, fCheckMerkleRoot, cur_time)`.  `block.vWitnessMerkleTree` is what
-    the constructor computed from the (immutable) `vtx`, i.e. `buildWitnessTree b.vtx`. -/
-def checkBlock (p : ChainParams) (b : Block) (fPoW fMerkle : Bool) (curTime : Int) : Res Unit :=
+/-- `CheckBlock(block, fCheckPoW, fCheckMerkleRoot, cur_time)` with the per-transaction loop as a
+    parameter.  `block.vWitnessMerkleTree` is what the constructor computed from the (immutable)
+    `vtx`, i.e. `buildWitnessTree b.vtx`. -/
+def checkBlockWith (loop : List Tx → Res Unit) (p : ChainParams) (b : Block) (fPoW fMerkle : Bool)
+    (curTime : Int) : Res Unit :=
   match getHeader b.hdr with
   | .error e => .error e
   | .ok hdr =>
@@ -202,7 +204,7 @@ def checkBlock (p : ChainParams) (b : Block) (fPoW fMerkle : Bool) (curTime : In
   | some cb =>
   if !cb.isCoinbase then reject
   else
-  match txLoop p b.vtx 0 [] 0 with
+  match loop b.vtx with
   | .error e => .error e
   | .ok () =>
   if fMerkle then
@@ -218,5 +220,9 @@ def checkBlock (p : ChainParams) (b : Block) (fPoW fMerkle : Bool) (curTime : In
     let wtree := wt.getD []
     if wtree.length ≠ 0 then checkCommitment b.vtx wtree else .ok ()
   else .ok ()
+
+/-- `CheckBlock`: the loop runs over every transaction, the coinbase included (repaired D10) -/
+def checkBlock (p : ChainParams) (b : Block) (fPoW fMerkle : Bool) (curTime : Int) : Res Unit :=
+  checkBlockWith (fun vtx => txLoop p vtx 0 [] 0) p b fPoW fMerkle curTime
 
 end BtcVerif.Model.BlockCheck
